@@ -4,6 +4,7 @@
 package rty
 
 import (
+	"encoding"
 	"fmt"
 	"reflect"
 	"sort"
@@ -61,6 +62,7 @@ type Opts struct {
 	NamedColl  bool // NStrs, NMap
 	Twins      bool // sibling struct fields whose types differ only in skipped fields
 	DeepPtrs   bool // user pointers to nil-able things: *[]T, *map[K]V, **T
+	IfaceSkip  bool // interface{} fields (defaults: nil, a func or a chan; no layer ever sets them)
 }
 
 // AllOpts enables everything C01 quantifies over.
@@ -171,6 +173,8 @@ func GenStruct(r *coqfmt.Rng, o Opts, depth int) reflect.Type {
 				t = GenStruct(r, o, depth+1)
 			}
 			sf = reflect.StructField{Name: name, Type: t, Tag: `dials:"-"`}
+		case o.IfaceSkip && x < 16 && r.Chance(1, 2):
+			sf = reflect.StructField{Name: name, Type: reflect.TypeOf((*interface{})(nil)).Elem()}
 		case o.Skipped && x < 18:
 			sf = reflect.StructField{Name: name, Type: reflect.TypeOf(make(chan int))}
 		case o.Skipped && x < 22:
@@ -359,8 +363,19 @@ func kbits(t reflect.Type) int {
 	return t.Bits()
 }
 
+var tuIface = reflect.TypeOf((*encoding.TextUnmarshaler)(nil)).Elem()
+
+// isTextU: a struct implementing encoding.TextUnmarshaler directly or via its pointer type
+// (what ptrify.IsTextUnmarshalerStruct decides); such a struct is an opaque leaf.
+func isTextU(t reflect.Type) bool {
+	return t.Kind() == reflect.Struct && (t.Implements(tuIface) || reflect.PtrTo(t).Implements(tuIface))
+}
+
 // TyTerm prints a reflect.Type as a Coq `ty`.
 func TyTerm(t reflect.Type) string {
+	if t != tTUp && t != tTUv && isTextU(t) {
+		return "(TTextU " + coqfmt.Str(t.String()) + " " + coqfmt.Bool(!t.Implements(tuIface)) + ")"
+	}
 	if t == tTUp {
 		return "(TTextU " + coqfmt.Str("TUp") + " true)"
 	}
@@ -452,6 +467,16 @@ func ValTerm(v reflect.Value) string {
 	if t == tTUp || t == tTUv {
 		return "(VText " + coqfmt.Str(v.Field(0).String()) + ")"
 	}
+	if isTextU(t) {
+		if v.CanInterface() {
+			if m, ok := v.Interface().(encoding.TextMarshaler); ok {
+				if b, err := m.MarshalText(); err == nil {
+					return "(VText " + coqfmt.Str(string(b)) + ")"
+				}
+			}
+		}
+		return "(VText " + coqfmt.Str(fmt.Sprint(v)) + ")"
+	}
 	switch t.Kind() {
 	case reflect.Bool:
 		return "(VBool " + coqfmt.Bool(v.Bool()) + ")"
@@ -532,7 +557,6 @@ func StructFieldsTerm(v reflect.Value) string {
 	return coqfmt.List(parts)
 }
 
-
 // AliasUserPtrs makes some same-typed, non-nil user-declared pointers (pointers
 // to non-structs) inside v point to the SAME variable.  Tree values cannot
 // tell, so the expected stacking result is unchanged; an implementation that
@@ -574,6 +598,43 @@ func AliasUserPtrs(r *coqfmt.Rng, v reflect.Value) int {
 		for j := i + 1; j < len(ptrs); j++ {
 			if ptrs[i].Type() == ptrs[j].Type() && r.Chance(1, 2) {
 				ptrs[j].Set(ptrs[i])
+				n++
+			}
+		}
+	}
+	return n
+}
+
+// FillIfaceFuncChan sets interface{}-typed fields reachable through structs
+// and non-nil pointers to structs to a func, a chan, or leaves them nil.
+func FillIfaceFuncChan(r *coqfmt.Rng, v reflect.Value, depth int) int {
+	n := 0
+	if depth > 6 {
+		return 0
+	}
+	switch v.Kind() {
+	case reflect.Struct:
+		if v.Type() == tTUp || v.Type() == tTUv {
+			return 0
+		}
+		for i := 0; i < v.NumField(); i++ {
+			if v.Type().Field(i).PkgPath != "" {
+				continue
+			}
+			n += FillIfaceFuncChan(r, v.Field(i), depth+1)
+		}
+	case reflect.Ptr:
+		if !v.IsNil() && v.Type().Elem().Kind() == reflect.Struct {
+			n += FillIfaceFuncChan(r, v.Elem(), depth+1)
+		}
+	case reflect.Interface:
+		if v.CanSet() && v.NumMethod() == 0 {
+			switch r.Intn(3) {
+			case 0:
+				v.Set(reflect.ValueOf(func() {}))
+				n++
+			case 1:
+				v.Set(reflect.ValueOf(make(chan int)))
 				n++
 			}
 		}
